@@ -13,6 +13,6 @@ passed=$(cargo test --workspace --offline 2>&1 | grep -E "^test result" | awk '{
 echo "suite with patch: $passed"
 strip /tmp/confirm-$id-js/with
 cp $demo /tmp/confirm-$id-js/demo.mjs
-( cd /tmp/confirm-$id-js && BEFF_CODEGEN_V2=$PWD/with/codegen-v2.js BEFF_CODEGEN=$PWD/with/codegen-v2.js BEFF_CLIENT=$PWD/with BEFF_RUNTIME=$PWD/with/codegen-v2.js node demo.mjs $( [ $argkind = dir ] && echo $PWD/with || echo $PWD/with/codegen-v2.js ) > with.out 2>&1; echo "demo with patch: exit $? ($(grep -c FAIL with.out) FAIL lines) $(tail -1 with.out | cut -c1-100)" )
-( cd /tmp/confirm-$id-js && BEFF_CODEGEN_V2=$PWD/without/codegen-v2.js BEFF_CODEGEN=$PWD/without/codegen-v2.js BEFF_CLIENT=$PWD/without BEFF_RUNTIME=$PWD/without/codegen-v2.js node demo.mjs $( [ $argkind = dir ] && echo $PWD/without || echo $PWD/without/codegen-v2.js ) > without.out 2>&1; echo "demo without patch: exit $? $(tail -1 without.out | cut -c1-100)" )
+( cd /tmp/confirm-$id-js && BEFF_CODEGEN_V2=$PWD/with/codegen-v2.js BEFF_CODEGEN=$PWD/with/codegen-v2.js BEFF_CLIENT=$PWD/with BEFF_RUNTIME=$PWD/with/codegen-v2.js BEFF_RT=$PWD/with/codegen-v2.js node demo.mjs $( [ $argkind = dir ] && echo $PWD/with || echo $PWD/with/codegen-v2.js ) > with.out 2>&1; echo "demo with patch: exit $? ($(grep -c FAIL with.out) FAIL lines) $(tail -1 with.out | cut -c1-100)" )
+( cd /tmp/confirm-$id-js && BEFF_CODEGEN_V2=$PWD/without/codegen-v2.js BEFF_CODEGEN=$PWD/without/codegen-v2.js BEFF_CLIENT=$PWD/without BEFF_RUNTIME=$PWD/without/codegen-v2.js BEFF_RT=$PWD/without/codegen-v2.js node demo.mjs $( [ $argkind = dir ] && echo $PWD/without || echo $PWD/without/codegen-v2.js ) > without.out 2>&1; echo "demo without patch: exit $? $(tail -1 without.out | cut -c1-100)" )
 cd /; git -C /repo worktree remove --force $wt; rm -rf /tmp/confirm-$id-js
